@@ -36,6 +36,7 @@ pub struct Case {
 struct Pos {
     path: Vec<Step>, // starts with Key("message") or Key("domain")
     ty: Ty,
+    #[allow(dead_code)]
     val: Val,
 }
 
